@@ -119,6 +119,7 @@ OVERLAYS = {
     "snaps_util_test.go": ("snaps", "zz_verif_util_test.go"),
     "snaps_json_test.go": ("snaps", "zz_verif_json_test.go"),
     "snaps_diff_test.go": ("snaps", "zz_verif_diff_test.go"),
+    "snaps_yaml_test.go": ("snaps", "zz_verif_yaml_test.go"),
 }
 
 
